@@ -324,6 +324,9 @@ pub struct ScriptedWriter<'a> {
     pub fault: Option<(usize, io::ErrorKind)>,
     /// position from which every write returns Ok(0)
     pub zero_at: Option<usize>,
+    /// with `fault` / `zero_at`: the sink fails only once at that position and accepts writes again afterwards (a
+    /// transient condition: a signal, a full pipe that drains, a quota that is lifted)
+    pub fault_is_transient: bool,
     pub calls: usize,
     max_calls: usize,
     pub flushes: usize,
@@ -352,6 +355,7 @@ impl<'a> ScriptedWriter<'a> {
             step_idx: 0,
             fault: None,
             zero_at: None,
+            fault_is_transient: false,
             calls: 0,
             max_calls: expected_len * 2 + steps.len() + 64,
             flushes: 0,
@@ -391,12 +395,18 @@ impl<'a> ScriptedWriter<'a> {
         if let Some((fp, kind)) = self.fault {
             if self.out.len() >= fp {
                 self.faulted = true;
+                if self.fault_is_transient {
+                    self.fault = None;
+                }
                 return Err(make_err(kind, self.fault_shape));
             }
         }
         if let Some(z) = self.zero_at {
             if self.out.len() >= z {
                 self.faulted = true;
+                if self.fault_is_transient {
+                    self.zero_at = None;
+                }
                 return Ok(Some(0));
             }
         }
